@@ -168,7 +168,7 @@ inline bool run_history(Choice &c, Ctx &cx, bool light, unsigned char heapfill, 
     Expert<T> &e = H.e;
     e.init(n, 0, n, n);
     e.S = to_comp<T>(H.G, base.nr, base.shuffle_rows ? &c : nullptr);
-    if (H.user_mem) { size_t sz = (size_t)(40000 + 4000 * n) * (sizeof(T) / 4); H.workbuf.assign(sz + 16, workfill); e.work = H.workbuf.data() + 8 + (c.chance(128) ? 4 : 0); e.lwork = (int_t)sz; }
+    if (H.user_mem) { size_t sz = (size_t)(40000 + 4000 * n) * (sizeof(T) / 4); H.workbuf.assign(sz + 16, workfill); e.work = H.workbuf.data() + 8 + pick_misalign(c.chance(128), cx); e.lwork = (int_t)sz; }
     std::string hist;
     for (int st = 0; st < steps; ++st) {
         // ---- choose a legal step ------------------------------------------------------------------
